@@ -8,7 +8,8 @@ import (
 
 // New returns a new namer.
 func New() *Namer {
-	return &Namer{lookup: map[string]struct{}{xtype.ThisVar: {}}}
+	// the receiver and the error variable are emitted under fixed names.
+	return &Namer{lookup: map[string]struct{}{xtype.ThisVar: {}, "err": {}}}
 }
 
 // Namer keeps track of used variable names.
